@@ -140,11 +140,11 @@ Definition inj_ok (K K0 : nkey) : Prop :=
   end.
 
 Lemma nkey_eqb_refl K : nkey_eqb K K = true.
-Proof. destruct K; cbn [nkey_eqb]; rewrite ?bytes_eqb_refl; reflexivity. Qed.
+Proof. destruct K as [c|c i|c i|o c i|c]; cbn [nkey_eqb]; rewrite ?bytes_eqb_refl; reflexivity. Qed.
 
 Lemma nkey_eqb_eq K K0 : nkey_eqb K K0 = true -> K = K0.
 Proof.
-  destruct K, K0; cbn [nkey_eqb]; intros H; try discriminate H;
+  destruct K as [c|c i|c i|o c i|c], K0 as [c0|c0 i0|c0 i0|o0 c0 i0|c0]; cbn [nkey_eqb]; intros H; try discriminate H;
     repeat (apply andb_true_iff in H; let H1 := fresh "H1" in destruct H as [H1 H]; apply bytes_eqb_eq in H1; subst);
     apply bytes_eqb_eq in H; subst; reflexivity.
 Qed.
@@ -214,20 +214,6 @@ Ltac kv :=
   repeat first [ rewrite get_set_enc by kok | rewrite get_del_enc by kok
                | rewrite has_set_enc by kok | rewrite has_del_enc by kok ];
   cbn [nkey_eqb orb andb negb].
-
-Ltac kv_in H :=
-  repeat first [ rewrite get_set_enc in H by kok | rewrite get_del_enc in H by kok
-               | rewrite has_set_enc in H by kok | rewrite has_del_enc in H by kok ];
-  cbn [nkey_eqb orb andb negb] in H.
-
-(** case analysis on one byte-string comparison of the goal *)
-Ltac beq :=
-  match goal with
-  | |- context [bytes_eqb ?x ?y] =>
-      let E := fresh "E" in
-      destruct (bytes_eqb x y) eqn:E; [apply bytes_eqb_eq in E; try subst | apply bytes_eqb_neq in E];
-      cbn [orb andb negb]
-  end.
 
 (** the relational fields of the invariant, phrased with typed keys *)
 Ltac inv_enc st R1 R2 R3 :=
@@ -530,6 +516,30 @@ Proof.
     rewrite ?supply_key_eq, ?nft_key_eq, ?owner_key_eq, ?by_owner_key_eq in E; discriminate E.
 Qed.
 
+Ltac nsup :=
+  let c' := fresh "c'" in let E := fresh "E" in
+  intros c' E; rewrite ?supply_key_eq, ?nft_key_eq, ?owner_key_eq, ?by_owner_key_eq, ?class_key_eq in E; discriminate E.
+
+Lemma get_supply_set_supply c0 n (st : pnft_state) c :
+  get_supply (set (supply_key c0) (VSupply n) st) c = if bytes_eqb c c0 then n else get_supply st c.
+Proof.
+  unfold get_supply. rewrite get_set. change (bytes_eqb (supply_key c) (supply_key c0)) with (bytes_eqb c c0).
+  destruct (bytes_eqb c c0); reflexivity.
+Qed.
+
+(** writing a class entry with an accepted id (CreateDenom, UpdateDenom, TransferDenom) *)
+Lemma set_class_inv st d : Inv_pnft st -> id_ok (dn_id d) -> Inv_pnft (set (class_key (dn_id d)) (VClass d) st).
+Proof.
+  intros HI Hid. destruct HI as [Hs He R1 R2 R3 R4]. inv_enc st R1 R2 R3.
+  split.
+  - apply sorted_set. exact Hs.
+  - apply Aol.Inv.Forall_set; [exact He|]. split; [reflexivity | exact Hid].
+  - intros c i. fold_enc. kv. intros H. rewrite (R1 c i H). apply orb_true_r.
+  - intros c i. fold_enc. kv. apply R2.
+  - intros o c i Ho. fold_enc. kv. apply R3. exact Ho.
+  - intros c. rewrite toc_set_other by reflexivity. rewrite <- R4. apply get_supply_set_other. nsup.
+Qed.
+
 Section Steps.
   Variable unbech : bytes -> option bytes.
   Hypothesis Hunbech : unbech_wf unbech.
@@ -593,13 +603,525 @@ Section Steps.
     create_denom st d = Ok st' -> Inv_pnft st'.
   Proof.
     intros st d st' HI Hvb H. apply vb_create_denom_id_ok in Hvb.
-    apply create_denom_ok in H as [Hno ->]. destruct HI as [Hs He R1 R2 R3 R4]. inv_enc st R1 R2 R3.
+    apply create_denom_ok in H as [Hno ->]. apply set_class_inv; assumption.
+  Qed.
+
+  Lemma update_denom_inv : forall st id name symbol description uri uri_hash updater data st',
+    Inv_pnft st -> update_denom st id name symbol description uri uri_hash updater data = Ok st' -> Inv_pnft st'.
+  Proof.
+    intros st id name symbol description uri uri_hash updater data st' HI H.
+    apply update_denom_ok in H as [d [d' [Hg [Ho [Hid [Ho' [Hc ->]]]]]]].
+    destruct (get_class_some st id d (ip_entries st HI) Hg) as [_ [Hd Hok]].
+    rewrite <- Hid. apply set_class_inv; [exact HI|]. rewrite Hid, Hd. exact Hok.
+  Qed.
+
+  Lemma transfer_denom_inv : forall st id sender receiver st',
+    Inv_pnft st -> transfer_denom st id sender receiver = Ok st' -> Inv_pnft st'.
+  Proof.
+    intros st id sender receiver st' HI H.
+    apply transfer_denom_ok in H as [d [d' [Hg [Ho [Hid [Ho' [Hc ->]]]]]]].
+    destruct (get_class_some st id d (ip_entries st HI) Hg) as [_ [Hd Hok]].
+    rewrite <- Hid. apply set_class_inv; [exact HI|]. rewrite Hid, Hd. exact Hok.
+  Qed.
+
+  Lemma delete_denom_inv : forall st id remover st',
+    Inv_pnft st -> delete_denom true st id remover = Ok st' -> Inv_pnft st'.
+  Proof.
+    intros st id remover st' HI H. apply delete_denom_ok in H as [d [Hg [Ho [Hsup ->]]]].
+    destruct HI as [Hs He R1 R2 R3 R4]. inv_enc st R1 R2 R3.
     split.
-    - apply sorted_set. exact Hs.
-    - apply Aol.Inv.Forall_set; [exact He|]. split; [reflexivity | exact Hvb].
-    - intros c i. fold_enc. kv. intros H. rewrite (R1 c i H). apply orb_true_r.
+    - apply sorted_del. exact Hs.
+    - apply Aol.Inv.Forall_del. exact He.
+    - intros c i. fold_enc. kv. intros H. rewrite (R1 c i H), andb_true_r.
+      destruct (bytes_eqb c id) eqn:E; [|reflexivity]. apply bytes_eqb_eq in E. subst c. exfalso.
+      pose proof (toc_pos st id i Hs He H) as P. rewrite R4 in Hsup. lia.
     - intros c i. fold_enc. kv. apply R2.
-    - intros o c i Ho. fold_enc. kv. apply R3. exact Ho.
-    - intros c. rewrite toc_set_other by reflexivity. rewrite <- R4. unf. fold_enc. kv. reflexivity.
+    - intros o c i Hvo. fold_enc. kv. apply R3. exact Hvo.
+    - intros c. rewrite toc_del_other by reflexivity. rewrite <- R4. apply get_supply_del_other. nsup.
+  Qed.
+
+  Lemma mint_pnft_inv : forall st now denom_id id name description uri uri_hash data creator st',
+    Inv_pnft st -> vb_mint_pnft unbech true denom_id id name creator = Ok tt ->
+    mint_pnft unbech st now denom_id id name description uri uri_hash data creator = Ok st' -> Inv_pnft st'.
+  Proof.
+    intros st now denom_id id name description uri uri_hash data creator st' HI Hvb H.
+    apply vb_mint_pnft_id_ok in Hvb.
+    apply mint_pnft_ok in H as [d [r [Hg [Ho [Hr H]]]]]. cbv zeta in H. destruct H as [Hc [Hn ->]].
+    destruct HI as [Hs He R1 R2 R3 R4]. inv_enc st R1 R2 R3.
+    destruct (get_class_some st denom_id d He Hg) as [_ [Hd Hok]]. rewrite <- Hd in Hok.
+    set (c := dn_id d) in *. clearbody c.
+    pose proof (id_ok_nn _ Hok) as Hnc. pose proof (id_ok_nn _ Hvb) as Hni.
+    pose proof (Hunbech _ _ Hr) as Hvr.
+    split.
+    - repeat apply sorted_set. exact Hs.
+    - apply Aol.Inv.Forall_set; [apply Aol.Inv.Forall_set; [apply Aol.Inv.Forall_set; [apply Aol.Inv.Forall_set; [exact He|]|]|]|].
+      + unfold entry_ok. cbn [fst snd tk_class tk_id]. auto.
+      + exists c, id. auto.
+      + exists r, c, id. auto.
+      + exists c. auto.
+    - intros c' i'. fold_enc. kv. intros H.
+      destruct (bytes_eqb c' c) eqn:E.
+      + apply bytes_eqb_eq in E. subst c'. exact Hc.
+      + cbn [andb orb] in H. apply R1 in H. exact H.
+    - intros c' i'. fold_enc. kv. rewrite R2. reflexivity.
+    - intros o' c' i' Ho'. fold_enc. kv.
+      destruct (bytes_eqb c' c) eqn:Ec; [destruct (bytes_eqb i' id) eqn:Ei|]; cbn [andb];
+        try (rewrite andb_false_r; cbn [orb]; apply R3; exact Ho').
+      apply bytes_eqb_eq in Ec. apply bytes_eqb_eq in Ei. subst c' i'.
+      assert (Hb : has (enc (NByOwner o' c id)) st = false).
+      { destruct (has (enc (NByOwner o' c id)) st) eqn:B; [|reflexivity].
+        apply R3 in B; [|exact Ho']. apply get_has_true in B. rewrite R2 in B. fold_enc. congruence. }
+      rewrite Hb, orb_false_r, andb_true_r. split; intros H.
+      * apply bytes_eqb_eq in H. subst. reflexivity.
+      * injection H as ->. apply bytes_eqb_refl.
+    - intros c'. rewrite !toc_set_other by reflexivity.
+      rewrite toc_set_token by (auto using has_false_get).
+      rewrite get_supply_set_supply. rewrite !get_supply_set_other by nsup.
+      rewrite !R4. destruct (bytes_eqb c' c) eqn:E; [apply bytes_eqb_eq in E; subst c'|]; lia.
+  Qed.
+
+  Lemma transfer_pnft_inv : forall st denom_id id sender receiver st',
+    Inv_pnft st -> transfer_pnft unbech bech st denom_id id sender receiver = Ok st' -> Inv_pnft st'.
+  Proof.
+    intros st c i sender receiver st' HI H.
+    apply transfer_pnft_ok in H as [p [r [Hp [Hsender [Hr [Hc [Hn ->]]]]]]].
+    destruct HI as [Hs He R1 R2 R3 R4]. inv_enc st R1 R2 R3.
+    destruct (has_true_get _ _ Hn) as [v Gv].
+    destruct (look_token st c i v He Gv) as [t [-> [_ [_ [Hokc Hoki]]]]].
+    pose proof (id_ok_nn _ Hokc) as Hnc. pose proof (id_ok_nn _ Hoki) as Hni.
+    pose proof (Hunbech _ _ Hr) as Hvr.
+    assert (Hown : has (owner_key c i) st = true) by (fold_enc; rewrite R2; exact Hn).
+    destruct (has_true_get _ _ Hown) as [vo Go].
+    destruct (look_owner st c i vo He Go) as [o [-> [Hvo _]]].
+    assert (Hgo : get_owner st c i = o) by (unfold get_owner; rewrite Go; reflexivity).
+    rewrite Hgo.
+    split.
+    - apply sorted_set, sorted_set, sorted_del, sorted_del. exact Hs.
+    - apply Aol.Inv.Forall_set; [apply Aol.Inv.Forall_set; [apply Aol.Inv.Forall_del, Aol.Inv.Forall_del; exact He|]|].
+      + exists c, i. auto.
+      + exists r, c, i. auto.
+    - intros c' i'. fold_enc. kv. apply R1.
+    - intros c' i'. fold_enc. kv.
+      destruct (bytes_eqb c' c) eqn:Ec; [destruct (bytes_eqb i' i) eqn:Ei|]; cbn [andb orb negb]; try apply R2.
+      apply bytes_eqb_eq in Ec. apply bytes_eqb_eq in Ei. subst c' i'. symmetry. exact Hn.
+    - intros o' c' i' Ho'. fold_enc. kv.
+      destruct (bytes_eqb c' c) eqn:Ec; [destruct (bytes_eqb i' i) eqn:Ei|]; cbn [andb];
+        try (rewrite !andb_false_r; cbn [orb negb andb]; apply R3; exact Ho').
+      apply bytes_eqb_eq in Ec. apply bytes_eqb_eq in Ei. subst c' i'. rewrite !andb_true_r.
+      destruct (bytes_eqb o' r) eqn:Er; cbn [orb].
+      + apply bytes_eqb_eq in Er. subst o'. tauto.
+      + apply bytes_eqb_neq in Er. split; intros H; [|injection H as H; congruence].
+        exfalso. apply andb_true_iff in H as [H1 H2]. apply R3 in H2; [|exact Ho'].
+        fold_enc. rewrite Go in H2. injection H2 as ->. rewrite bytes_eqb_refl in H1. discriminate H1.
+    - intros c'. rewrite !toc_set_other by reflexivity. rewrite !toc_del_other by reflexivity.
+      rewrite !get_supply_set_other by nsup. rewrite !get_supply_del_other by nsup. apply R4.
+  Qed.
+
+  Lemma burn_pnft_inv : forall st denom_id id burner st',
+    Inv_pnft st -> burn_pnft bech st denom_id id burner = Ok st' -> Inv_pnft st'.
+  Proof.
+    intros st c i burner st' HI H.
+    apply burn_pnft_ok in H as [p [Hp [Hburner [Hc [Hn ->]]]]].
+    destruct HI as [Hs He R1 R2 R3 R4]. inv_enc st R1 R2 R3.
+    destruct (has_true_get _ _ Hn) as [v Gv].
+    destruct (look_token st c i v He Gv) as [t [-> [_ [_ [Hokc Hoki]]]]].
+    pose proof (id_ok_nn _ Hokc) as Hnc. pose proof (id_ok_nn _ Hoki) as Hni.
+    assert (Hown : has (owner_key c i) st = true) by (fold_enc; rewrite R2; exact Hn).
+    destruct (has_true_get _ _ Hown) as [vo Go].
+    destruct (look_owner st c i vo He Go) as [o [-> [Hvo _]]].
+    assert (Hgo : get_owner st c i = o) by (unfold get_owner; rewrite Go; reflexivity).
+    rewrite Hgo.
+    split.
+    - apply sorted_set, sorted_del, sorted_del, sorted_del. exact Hs.
+    - apply Aol.Inv.Forall_set; [apply Aol.Inv.Forall_del, Aol.Inv.Forall_del, Aol.Inv.Forall_del; exact He|].
+      exists c. auto.
+    - intros c' i'. fold_enc. kv. intros H. apply andb_true_iff in H as [_ H]. apply R1 in H. exact H.
+    - intros c' i'. fold_enc. kv. rewrite R2. reflexivity.
+    - intros o' c' i' Ho'. fold_enc. kv.
+      destruct (bytes_eqb c' c) eqn:Ec; [destruct (bytes_eqb i' i) eqn:Ei|]; cbn [andb];
+        try (rewrite !andb_false_r; cbn [orb negb andb]; apply R3; exact Ho').
+      apply bytes_eqb_eq in Ec. apply bytes_eqb_eq in Ei. subst c' i'. rewrite !andb_true_r.
+      split; intros H; [|discriminate H]. exfalso.
+      apply andb_true_iff in H as [H1 H2]. apply R3 in H2; [|exact Ho'].
+      fold_enc. rewrite Go in H2. injection H2 as ->. rewrite bytes_eqb_refl in H1. discriminate H1.
+    - intros c'. rewrite toc_set_other by reflexivity. rewrite !toc_del_other by reflexivity.
+      pose proof (toc_del_token st c i t c' Hs Gv Hnc Hni) as L.
+      rewrite get_supply_set_supply. rewrite !get_supply_del_other by nsup.
+      rewrite !R4.
+      destruct (bytes_eqb c' c) eqn:E; [apply bytes_eqb_eq in E; subst c'|]; [|lia].
+      destruct (N.of_nat (length (tokens_of_class st c)) =? 0)%N eqn:Z; [apply N.eqb_eq in Z|apply N.eqb_neq in Z]; lia.
+  Qed.
+
+  (** ** C06: who may act -- an accepted request comes from the stored owner (string comparison) *)
+  Lemma create_denom_effect : forall st d st',
+    create_denom st d = Ok st' -> get_class st (dn_id d) = None /\ get_class st' (dn_id d) = Some d.
+  Proof.
+    intros st d st' H. apply create_denom_ok in H as [Hno ->]. unfold get_class.
+    rewrite (has_false_get _ _ Hno), get_set_eq. split; reflexivity.
+  Qed.
+
+  Lemma update_denom_owner : forall st id name symbol description uri uri_hash updater data st',
+    update_denom st id name symbol description uri uri_hash updater data = Ok st' ->
+    exists dn, get_class st id = Some dn /\ dn_owner dn = updater.
+  Proof.
+    intros st id name symbol description uri uri_hash updater data st' H.
+    apply update_denom_ok in H as [d [d' [Hg [Ho _]]]]. exists d. auto.
+  Qed.
+
+  Lemma delete_denom_owner : forall st id remover st',
+    delete_denom true st id remover = Ok st' ->
+    exists dn, get_class st id = Some dn /\ dn_owner dn = remover /\ get_supply st id = 0%N.
+  Proof.
+    intros st id remover st' H. apply delete_denom_ok in H as [d [Hg [Ho [Hsup _]]]]. exists d. auto.
+  Qed.
+
+  Lemma transfer_denom_owner : forall st id sender receiver st',
+    Inv_pnft st -> transfer_denom st id sender receiver = Ok st' ->
+    exists dn, get_class st id = Some dn /\ dn_owner dn = sender /\
+    exists dn', get_class st' id = Some dn' /\ dn_owner dn' = receiver.
+  Proof.
+    intros st id sender receiver st' HI H.
+    apply transfer_denom_ok in H as [d [d' [Hg [Ho [Hid [Ho' [Hc ->]]]]]]].
+    destruct (get_class_some st id d (ip_entries st HI) Hg) as [_ [Hd _]].
+    exists d. split; [exact Hg|]. split; [exact Ho|]. exists d'. split; [|exact Ho'].
+    unfold get_class. rewrite Hd, get_set_eq. reflexivity.
+  Qed.
+
+  Lemma mint_pnft_owner : forall st now denom_id id name description uri uri_hash data creator st',
+    mint_pnft unbech st now denom_id id name description uri uri_hash data creator = Ok st' ->
+    exists dn r, get_class st denom_id = Some dn /\ dn_owner dn = creator /\ unbech creator = Some r /\
+      get_nft st (dn_id dn) id = None /\
+      get_nft st' (dn_id dn) id =
+        Some {| tk_class := dn_id dn; tk_id := id; tk_uri := uri; tk_uri_hash := uri_hash; tk_name := name;
+                tk_description := description; tk_creator := creator; tk_created_at := now; tk_data := data |} /\
+      get_owner st' (dn_id dn) id = r.
+  Proof.
+    intros st now denom_id id name description uri uri_hash data creator st' H.
+    apply mint_pnft_ok in H as [d [r [Hg [Ho [Hr H]]]]]. cbv zeta in H. destruct H as [Hc [Hn ->]].
+    exists d, r. split; [exact Hg|]. split; [exact Ho|]. split; [exact Hr|].
+    split; [unfold get_nft; rewrite (has_false_get _ _ Hn); reflexivity|].
+    split.
+    - unfold get_nft. fold_enc. kv. rewrite get_set_eq. reflexivity.
+    - unfold get_owner. fold_enc. kv. rewrite get_set_eq. reflexivity.
+  Qed.
+
+  (** with the invariant a denom is stored under its own id (so [dn_id dn] above is [denom_id]) *)
+  Lemma get_class_id : forall st id dn, Inv_pnft st -> get_class st id = Some dn -> dn_id dn = id /\ id_ok id.
+  Proof. intros st id dn HI Hg. apply (get_class_some st id dn (ip_entries st HI) Hg). Qed.
+
+  Lemma transfer_pnft_owner : forall st c i sender receiver st',
+    transfer_pnft unbech bech st c i sender receiver = Ok st' ->
+    exists p r, get_pnft bech st c i = Some p /\ p_owner p = sender /\ unbech receiver = Some r /\
+                get_owner st' c i = r.
+  Proof.
+    intros st c i sender receiver st' H.
+    apply transfer_pnft_ok in H as [p [r [Hp [Hsender [Hr [Hc [Hn ->]]]]]]].
+    exists p, r. split; [exact Hp|]. split; [exact Hsender|]. split; [exact Hr|].
+    unfold get_owner. fold_enc. kv. rewrite get_set_eq. reflexivity.
+  Qed.
+
+  Lemma burn_pnft_owner : forall st c i burner st',
+    burn_pnft bech st c i burner = Ok st' -> exists p, get_pnft bech st c i = Some p /\ p_owner p = burner.
+  Proof.
+    intros st c i burner st' H. apply burn_pnft_ok in H as [p [Hp [Hb _]]]. exists p. auto.
+  Qed.
+
+  (** ** C06: ownership changes only through those messages *)
+  (** *** denom owners *)
+  Lemma create_denom_owner_frame : forall st d st',
+    create_denom st d = Ok st' -> forall id', id' <> dn_id d -> denom_owner st' id' = denom_owner st id'.
+  Proof.
+    intros st d st' H id' Hne. apply create_denom_ok in H as [_ ->].
+    unfold denom_owner, get_class. fold_enc. kv. apply bytes_eqb_neq in Hne. rewrite Hne. reflexivity.
+  Qed.
+
+  Lemma update_denom_keeps_owners : forall st id name symbol description uri uri_hash updater data st',
+    Inv_pnft st -> update_denom st id name symbol description uri uri_hash updater data = Ok st' ->
+    forall id', denom_owner st' id' = denom_owner st id'.
+  Proof.
+    intros st id name symbol description uri uri_hash updater data st' HI H id'.
+    apply update_denom_ok in H as [d [d' [Hg [Ho [Hid [Ho' [Hc ->]]]]]]].
+    destruct (get_class_some st id d (ip_entries st HI) Hg) as [_ [Hd _]].
+    unfold denom_owner at 1. unfold get_class. fold_enc. kv.
+    destruct (bytes_eqb id' (dn_id d)) eqn:E; [|reflexivity].
+    apply bytes_eqb_eq in E. subst id'. unfold denom_owner. rewrite Hd, Hg, Ho'. reflexivity.
+  Qed.
+
+  Lemma delete_denom_owner_frame : forall st id remover st',
+    delete_denom true st id remover = Ok st' -> forall id', id' <> id -> denom_owner st' id' = denom_owner st id'.
+  Proof.
+    intros st id remover st' H id' Hne. apply delete_denom_ok in H as [d [_ [_ [_ ->]]]].
+    unfold denom_owner, get_class. fold_enc. kv. apply bytes_eqb_neq in Hne. rewrite Hne. reflexivity.
+  Qed.
+
+  Lemma transfer_denom_owner_frame : forall st id sender receiver st',
+    Inv_pnft st -> transfer_denom st id sender receiver = Ok st' ->
+    forall id', id' <> id -> denom_owner st' id' = denom_owner st id'.
+  Proof.
+    intros st id sender receiver st' HI H id' Hne.
+    apply transfer_denom_ok in H as [d [d' [Hg [Ho [Hid [Ho' [Hc ->]]]]]]].
+    destruct (get_class_some st id d (ip_entries st HI) Hg) as [_ [Hd _]].
+    unfold denom_owner, get_class. fold_enc. kv. rewrite Hd. apply bytes_eqb_neq in Hne. rewrite Hne. reflexivity.
+  Qed.
+
+  Lemma mint_pnft_keeps_denom_owners : forall st now denom_id id name description uri uri_hash data creator st',
+    mint_pnft unbech st now denom_id id name description uri uri_hash data creator = Ok st' ->
+    forall id', denom_owner st' id' = denom_owner st id'.
+  Proof.
+    intros st now denom_id id name description uri uri_hash data creator st' H id'.
+    apply mint_pnft_ok in H as [d [r [_ [_ [_ H]]]]]. cbv zeta in H. destruct H as [_ [_ ->]].
+    unfold denom_owner, get_class. fold_enc. kv. reflexivity.
+  Qed.
+
+  Lemma transfer_pnft_keeps_denom_owners : forall st c i sender receiver st',
+    transfer_pnft unbech bech st c i sender receiver = Ok st' -> forall id', denom_owner st' id' = denom_owner st id'.
+  Proof.
+    intros st c i sender receiver st' H id'.
+    apply transfer_pnft_ok in H as [p [r [_ [_ [_ [_ [_ ->]]]]]]].
+    unfold denom_owner, get_class. fold_enc. kv. reflexivity.
+  Qed.
+
+  Lemma burn_pnft_keeps_denom_owners : forall st c i burner st',
+    burn_pnft bech st c i burner = Ok st' -> forall id', denom_owner st' id' = denom_owner st id'.
+  Proof.
+    intros st c i burner st' H id'. apply burn_pnft_ok in H as [p [_ [_ [_ [_ ->]]]]].
+    unfold denom_owner, get_class. fold_enc. kv. reflexivity.
+  Qed.
+
+  (** *** token owners *)
+  Lemma create_denom_keeps_token_owners : forall st d st',
+    create_denom st d = Ok st' -> forall c' i', get_owner st' c' i' = get_owner st c' i'.
+  Proof.
+    intros st d st' H c' i'. apply create_denom_ok in H as [_ ->]. unfold get_owner. fold_enc. kv. reflexivity.
+  Qed.
+
+  Lemma update_denom_keeps_token_owners : forall st id name symbol description uri uri_hash updater data st',
+    update_denom st id name symbol description uri uri_hash updater data = Ok st' ->
+    forall c' i', get_owner st' c' i' = get_owner st c' i'.
+  Proof.
+    intros st id name symbol description uri uri_hash updater data st' H c' i'.
+    apply update_denom_ok in H as [d [d' [_ [_ [_ [_ [_ ->]]]]]]]. unfold get_owner. fold_enc. kv. reflexivity.
+  Qed.
+
+  Lemma delete_denom_keeps_token_owners : forall st id remover st',
+    delete_denom true st id remover = Ok st' -> forall c' i', get_owner st' c' i' = get_owner st c' i'.
+  Proof.
+    intros st id remover st' H c' i'. apply delete_denom_ok in H as [d [_ [_ [_ ->]]]].
+    unfold get_owner. fold_enc. kv. reflexivity.
+  Qed.
+
+  Lemma transfer_denom_keeps_token_owners : forall st id sender receiver st',
+    transfer_denom st id sender receiver = Ok st' -> forall c' i', get_owner st' c' i' = get_owner st c' i'.
+  Proof.
+    intros st id sender receiver st' H c' i'.
+    apply transfer_denom_ok in H as [d [d' [_ [_ [_ [_ [_ ->]]]]]]]. unfold get_owner. fold_enc. kv. reflexivity.
+  Qed.
+
+  Lemma mint_pnft_token_owner_frame : forall st now denom_id id name description uri uri_hash data creator st',
+    Inv_pnft st -> mint_pnft unbech st now denom_id id name description uri uri_hash data creator = Ok st' ->
+    forall c' i', id_ok c' -> id_ok i' -> (c', i') <> (denom_id, id) -> get_owner st' c' i' = get_owner st c' i'.
+  Proof.
+    intros st now denom_id id name description uri uri_hash data creator st' HI H c' i' Hc' Hi' Hne.
+    apply mint_pnft_ok in H as [d [r [Hg [_ [_ H]]]]]. cbv zeta in H. destruct H as [_ [_ ->]].
+    destruct (get_class_some st denom_id d (ip_entries st HI) Hg) as [_ [Hd _]]. rewrite Hd.
+    pose proof (id_ok_nn _ Hc') as Hnc. pose proof (id_ok_nn _ Hi') as Hni.
+    unfold get_owner. fold_enc. kv.
+    destruct (bytes_eqb c' denom_id) eqn:Ec; [destruct (bytes_eqb i' id) eqn:Ei|]; cbn [andb]; try reflexivity.
+    apply bytes_eqb_eq in Ec. apply bytes_eqb_eq in Ei. subst. contradiction Hne; reflexivity.
+  Qed.
+
+  Lemma transfer_pnft_token_owner_frame : forall st c i sender receiver st',
+    Inv_pnft st -> transfer_pnft unbech bech st c i sender receiver = Ok st' ->
+    forall c' i', (c', i') <> (c, i) -> get_owner st' c' i' = get_owner st c' i'.
+  Proof.
+    intros st c i sender receiver st' HI H c' i' Hne.
+    apply transfer_pnft_ok in H as [p [r [_ [_ [_ [_ [Hn ->]]]]]]].
+    destruct (has_true_get _ _ Hn) as [v Gv].
+    destruct (look_token st c i v (ip_entries st HI) Gv) as [t [-> [_ [_ [Hokc Hoki]]]]].
+    pose proof (id_ok_nn _ Hokc) as Hnc. pose proof (id_ok_nn _ Hoki) as Hni.
+    unfold get_owner at 1 2. fold_enc. kv.
+    destruct (bytes_eqb c' c) eqn:Ec; [destruct (bytes_eqb i' i) eqn:Ei|]; cbn [andb]; try reflexivity.
+    apply bytes_eqb_eq in Ec. apply bytes_eqb_eq in Ei. subst. contradiction Hne; reflexivity.
+  Qed.
+
+  Lemma burn_pnft_token_owner_frame : forall st c i burner st',
+    Inv_pnft st -> burn_pnft bech st c i burner = Ok st' ->
+    forall c' i', (c', i') <> (c, i) -> get_owner st' c' i' = get_owner st c' i'.
+  Proof.
+    intros st c i burner st' HI H c' i' Hne.
+    apply burn_pnft_ok in H as [p [_ [_ [_ [Hn ->]]]]].
+    destruct (has_true_get _ _ Hn) as [v Gv].
+    destruct (look_token st c i v (ip_entries st HI) Gv) as [t [-> [_ [_ [Hokc Hoki]]]]].
+    pose proof (id_ok_nn _ Hokc) as Hnc. pose proof (id_ok_nn _ Hoki) as Hni.
+    unfold get_owner at 1 3. fold_enc. kv.
+    destruct (bytes_eqb c' c) eqn:Ec; [destruct (bytes_eqb i' i) eqn:Ei|]; cbn [andb]; try reflexivity.
+    apply bytes_eqb_eq in Ec. apply bytes_eqb_eq in Ei. subst. contradiction Hne; reflexivity.
+  Qed.
+
+  (** ** C12: tokens are unique and immutable *)
+  Lemma mint_existing_fails : forall st denom_id id,
+    Inv_pnft st -> get_nft st denom_id id <> None ->
+    forall now name description uri uri_hash data creator,
+      mint_pnft unbech st now denom_id id name description uri uri_hash data creator = Err cs_pnft 6.
+  Proof.
+    intros st denom_id id HI Hex now name description uri uri_hash data creator.
+    unfold mint_pnft. destruct (get_class st denom_id) as [d|] eqn:Hg; [|reflexivity].
+    destruct (negb (bytes_eqb (dn_owner d) creator)); [reflexivity|].
+    destruct (unbech creator) as [r|]; [|reflexivity].
+    destruct (get_class_some st denom_id d (ip_entries st HI) Hg) as [_ [Hd _]].
+    unfold nft_mint. cbn [tk_class tk_id]. rewrite Hd.
+    destruct (negb (has_class st denom_id)); [reflexivity|].
+    assert (Hh : has_nft st denom_id id = true).
+    { unfold has_nft, has. unfold get_nft in Hex. destruct (get (nft_key denom_id id) st); [reflexivity|].
+      contradiction Hex; reflexivity. }
+    rewrite Hh. reflexivity.
+  Qed.
+
+  Lemma create_denom_tokens_immutable : forall st d st',
+    create_denom st d = Ok st' -> forall c i, get_nft st' c i = get_nft st c i.
+  Proof.
+    intros st d st' H c i. apply create_denom_ok in H as [_ ->]. unfold get_nft. fold_enc. kv. reflexivity.
+  Qed.
+
+  Lemma update_denom_tokens_immutable : forall st id name symbol description uri uri_hash updater data st',
+    update_denom st id name symbol description uri uri_hash updater data = Ok st' ->
+    forall c i, get_nft st' c i = get_nft st c i.
+  Proof.
+    intros st id name symbol description uri uri_hash updater data st' H c i.
+    apply update_denom_ok in H as [d [d' [_ [_ [_ [_ [_ ->]]]]]]]. unfold get_nft. fold_enc. kv. reflexivity.
+  Qed.
+
+  Lemma delete_denom_tokens_immutable : forall st id remover st',
+    delete_denom true st id remover = Ok st' -> forall c i, get_nft st' c i = get_nft st c i.
+  Proof.
+    intros st id remover st' H c i. apply delete_denom_ok in H as [d [_ [_ [_ ->]]]].
+    unfold get_nft. fold_enc. kv. reflexivity.
+  Qed.
+
+  Lemma transfer_denom_tokens_immutable : forall st id sender receiver st',
+    transfer_denom st id sender receiver = Ok st' -> forall c i, get_nft st' c i = get_nft st c i.
+  Proof.
+    intros st id sender receiver st' H c i.
+    apply transfer_denom_ok in H as [d [d' [_ [_ [_ [_ [_ ->]]]]]]]. unfold get_nft. fold_enc. kv. reflexivity.
+  Qed.
+
+  Lemma mint_pnft_tokens_immutable : forall st now denom_id id name description uri uri_hash data creator st',
+    Inv_pnft st -> mint_pnft unbech st now denom_id id name description uri uri_hash data creator = Ok st' ->
+    forall c i t, get_nft st c i = Some t -> get_nft st' c i = Some t.
+  Proof.
+    intros st now denom_id id name description uri uri_hash data creator st' HI H c i t Ht.
+    apply mint_pnft_ok in H as [d [r [_ [_ [_ H]]]]]. cbv zeta in H. destruct H as [_ [Hn ->]].
+    destruct (get_nft_some st c i t (ip_entries st HI) Ht) as [Gt [_ [_ [Hokc Hoki]]]].
+    pose proof (id_ok_nn _ Hokc) as Hnc. pose proof (id_ok_nn _ Hoki) as Hni.
+    unfold get_nft. fold_enc. kv.
+    destruct (bytes_eqb c (dn_id d)) eqn:Ec; [destruct (bytes_eqb i id) eqn:Ei|]; cbn [andb]; try (rewrite Gt; reflexivity).
+    apply bytes_eqb_eq in Ec. apply bytes_eqb_eq in Ei. subst c i.
+    apply has_false_get in Hn. congruence.
+  Qed.
+
+  Lemma transfer_pnft_tokens_immutable : forall st c0 i0 sender receiver st',
+    transfer_pnft unbech bech st c0 i0 sender receiver = Ok st' -> forall c i, get_nft st' c i = get_nft st c i.
+  Proof.
+    intros st c0 i0 sender receiver st' H c i.
+    apply transfer_pnft_ok in H as [p [r [_ [_ [_ [_ [_ ->]]]]]]]. unfold get_nft. fold_enc. kv. reflexivity.
+  Qed.
+
+  (** a burn removes exactly the named token *)
+  Lemma burn_pnft_tokens : forall st c0 i0 burner st',
+    Inv_pnft st -> burn_pnft bech st c0 i0 burner = Ok st' ->
+    get_nft st' c0 i0 = None /\ forall c i, (c, i) <> (c0, i0) -> get_nft st' c i = get_nft st c i.
+  Proof.
+    intros st c0 i0 burner st' HI H.
+    apply burn_pnft_ok in H as [p [_ [_ [_ [Hn ->]]]]].
+    destruct (has_true_get _ _ Hn) as [v Gv].
+    destruct (look_token st c0 i0 v (ip_entries st HI) Gv) as [t [-> [_ [_ [Hokc Hoki]]]]].
+    pose proof (id_ok_nn _ Hokc) as Hnc. pose proof (id_ok_nn _ Hoki) as Hni.
+    split.
+    - unfold get_nft. fold_enc. kv. rewrite !bytes_eqb_refl. reflexivity.
+    - intros c i Hne. unfold get_nft. fold_enc. kv.
+      destruct (bytes_eqb c c0) eqn:Ec; [destruct (bytes_eqb i i0) eqn:Ei|]; cbn [andb]; try reflexivity.
+      apply bytes_eqb_eq in Ec. apply bytes_eqb_eq in Ei. subst. contradiction Hne; reflexivity.
+  Qed.
+
+  Lemma burn_pnft_tokens_immutable : forall st c0 i0 burner st',
+    Inv_pnft st -> burn_pnft bech st c0 i0 burner = Ok st' ->
+    forall c i t, get_nft st c i = Some t ->
+      get_nft st' c i = Some t \/ ((c, i) = (c0, i0) /\ get_nft st' c i = None).
+  Proof.
+    intros st c0 i0 burner st' HI H c i t Ht. destruct (burn_pnft_tokens st c0 i0 burner st' HI H) as [Hb Hf].
+    destruct (bytes_eq_dec c c0) as [Ec|Ec]; [destruct (bytes_eq_dec i i0) as [Ei|Ei]|].
+    - subst. right. split; [reflexivity | exact Hb].
+    - left. rewrite Hf; [exact Ht|]. intros E. injection E as _ E. contradiction.
+    - left. rewrite Hf; [exact Ht|]. intros E. injection E as E _. contradiction.
+  Qed.
+
+  (** ** C12: every token belongs to an existing denom, under the ids it is stored by *)
+  Lemma token_has_denom : forall st, Inv_pnft st -> forall c i t,
+    get_nft st c i = Some t -> has_class st c = true /\ tk_class t = c /\ tk_id t = i /\ id_ok c /\ id_ok i.
+  Proof.
+    intros st HI c i t Ht. destruct (get_nft_some st c i t (ip_entries st HI) Ht) as [Gt [Hc [Hi [Hokc Hoki]]]].
+    split; [|auto]. unfold has_class. apply (ip_token_class st HI c i). apply (get_has_true _ _ _ Gt).
+  Qed.
+
+  (** a token has a well-formed owner, and the by-owner index points at it *)
+  Lemma token_has_owner : forall st, Inv_pnft st -> forall c i t,
+    get_nft st c i = Some t ->
+    verify_address_format (get_owner st c i) = true /\ has (by_owner_key (get_owner st c i) c i) st = true.
+  Proof.
+    intros st HI c i t Ht. destruct (get_nft_some st c i t (ip_entries st HI) Ht) as [Gt _].
+    pose proof (get_has_true _ _ _ Gt) as Hn. rewrite <- (ip_token_owner st HI) in Hn.
+    destruct (has_true_get _ _ Hn) as [vo Go].
+    destruct (look_owner st c i vo (ip_entries st HI) Go) as [o [-> [Hvo _]]].
+    unfold get_owner. rewrite Go. split; [exact Hvo|]. apply (ip_by_owner st HI o c i Hvo). exact Go.
+  Qed.
+
+  (** ** C12: the supply counter is the number of tokens of the class *)
+  Lemma supply_is_count : forall st, Inv_pnft st -> forall c,
+    get_supply st c = N.of_nat (length (tokens_of_class st c)).
+  Proof. intros st HI c. apply (ip_supply st HI). Qed.
+
+  (** the listing of a class contains exactly the tokens stored under that class *)
+  Lemma tokens_of_class_spec : forall st, Inv_pnft st -> forall c t,
+    In t (tokens_of_class st c) <-> (tk_class t = c /\ get_nft st c (tk_id t) = Some t).
+  Proof.
+    intros st HI c t. rewrite toc_eq. unfold prefix_items. rewrite in_flat_map. split.
+    - intros [[k v] [Hin Ht]]. apply filter_In in Hin as [Hin Hp]. cbn [fst] in Hp.
+      unfold tokf in Ht. cbn [snd] in Ht. destruct v as [d|t'|o| |n]; try contradiction.
+      destruct Ht as [<-|[]].
+      pose proof (ip_entries st HI) as He. rewrite Forall_forall in He. specialize (He _ Hin).
+      unfold entry_ok in He. cbn [fst snd] in He. destruct He as [-> [Hokc Hoki]].
+      rewrite (is_prefix_nft c _ _ (id_ok_nn _ Hokc) (id_ok_nn _ Hoki)) in Hp. apply bytes_eqb_eq in Hp. subst c.
+      split; [reflexivity|]. unfold get_nft. rewrite (In_get _ _ _ (ip_sorted st HI) Hin). reflexivity.
+    - intros [Hc Ht]. destruct (get_nft_some st c (tk_id t) t (ip_entries st HI) Ht) as [Gt _].
+      exists (nft_key c (tk_id t), VToken t). split; [|left; reflexivity].
+      apply filter_In. split; [apply get_In; exact Gt|]. cbn [fst]. unfold nft_key. apply is_prefix_app.
   Qed.
 End Steps.
+
+Print Assumptions nft_key_inj.
+Print Assumptions owner_key_inj.
+Print Assumptions nft_key_alias_example.
+Print Assumptions Inv_pnft_empty.
+Print Assumptions create_denom_inv.
+Print Assumptions update_denom_inv.
+Print Assumptions delete_denom_inv.
+Print Assumptions transfer_denom_inv.
+Print Assumptions mint_pnft_inv.
+Print Assumptions transfer_pnft_inv.
+Print Assumptions burn_pnft_inv.
+Print Assumptions transfer_denom_owner.
+Print Assumptions mint_pnft_owner.
+Print Assumptions transfer_pnft_owner.
+Print Assumptions burn_pnft_owner.
+Print Assumptions update_denom_keeps_owners.
+Print Assumptions transfer_denom_owner_frame.
+Print Assumptions mint_pnft_token_owner_frame.
+Print Assumptions transfer_pnft_token_owner_frame.
+Print Assumptions burn_pnft_token_owner_frame.
+Print Assumptions mint_existing_fails.
+Print Assumptions mint_pnft_tokens_immutable.
+Print Assumptions burn_pnft_tokens_immutable.
+Print Assumptions token_has_denom.
+Print Assumptions token_has_owner.
+Print Assumptions supply_is_count.
+Print Assumptions tokens_of_class_spec.
